@@ -75,6 +75,15 @@ def create_linked_view(project, prefix=None, job_ids=None, path=None):
         if os.sep in item or item in (os.curdir, os.pardir)
     ]
 
+    # The links themselves are named 'job': a state point key of that name
+    # would make a link and a directory compete for the same path as soon as
+    # the key changes between being constant and distinguishing.
+    if any("job" in job.statepoint() for job in jobs):
+        raise RuntimeError(
+            "In order to use view, state points should not contain the key 'job', "
+            "which is the name of the links in the view."
+        )
+
     if any(bad_items):
         err_msg = " ".join(
             [
